@@ -5,6 +5,9 @@
 (*   comps the field as the list of components that was GIVEN to the        *)
 (*         library (0..3 for vector fields, 1 for a scalar field), each the *)
 (*         term list << <<i,j,k>>, <<n,d>> >>* of its Cartesian polynomial  *)
+(*   abs   <<v, k>>: the scalar field is comps[1] * |x_v|^k (FieldOps,     *)
+(*         AbsLocal: TLC uses the polynomial of the half-space of pt);      *)
+(*         <<0, 0>> for a plain polynomial field                            *)
 (*   pt    the exact point <<x, y, z>> (rationals <<n, d>>)                 *)
 (*   val   what the library returned there, as Cartesian components         *)
 (*         (curvilinear results rotated back by the harness)                *)
@@ -22,8 +25,14 @@ tvars == <<kind, fld, terms, l>>
 RatOf(x) == Norm(x[1], x[2])
 PtOf(p)  == <<RatOf(p[1]), RatOf(p[2]), RatOf(p[3])>>
 
-CompsOf(r)  == [i \in 1..Len(r.comps) |-> PFromTerms(r.comps[i])]
-Fits(r)     == Len(r.comps) <= 3 /\ \A i \in 1..Len(r.comps) : TermsFit(r.comps[i])
+HasAbs(r)   == r.abs[1] # 0
+CompsOf(r)  == [i \in 1..Len(r.comps) |->
+                  IF HasAbs(r) THEN AbsLocal(PFromTerms(r.comps[i]), r.abs[1], r.abs[2], PtOf(r.pt))
+                  ELSE PFromTerms(r.comps[i])]
+Fits(r)     == /\ Len(r.comps) <= 3 /\ \A i \in 1..Len(r.comps) : TermsFit(r.comps[i])
+               /\ HasAbs(r) => /\ r.op = "grad" /\ r.abs[1] \in Vars /\ r.abs[2] = 3
+                               /\ PtOf(r.pt)[r.abs[1]] # RZero
+                               /\ AbsFits(PFromTerms(r.comps[1]), r.abs[1], r.abs[2])
 
 Expected(r) ==
   CASE r.op = "grad" -> VEval(Grad(CompsOf(r)[1]), PtOf(r.pt))
